@@ -16,6 +16,7 @@ import (
 	"verifharness/ast"
 	"verifharness/gen"
 	"verifharness/hx"
+	"verifharness/ref"
 	"verifharness/render"
 )
 
@@ -64,6 +65,35 @@ func structDump(c *hx.Case, what string, body hcl.Body, tree *ast.Body, depth in
 			sb.WriteString("}")
 		}
 	}
+	return sb.String()
+}
+
+// flatContent dumps one level of content: attribute names, the block sequence per type
+// with labels, and the error flag.
+func flatContent(cnt *hcl.BodyContent, d hcl.Diagnostics) string {
+	if cnt == nil {
+		return "nil"
+	}
+	var names []string
+	for n := range cnt.Attributes {
+		names = append(names, n)
+	}
+	sort.Strings(names)
+	byType := map[string][]string{}
+	var types []string
+	for _, b := range cnt.Blocks {
+		if _, ok := byType[b.Type]; !ok {
+			types = append(types, b.Type)
+		}
+		byType[b.Type] = append(byType[b.Type], fmt.Sprintf("%q", b.Labels))
+	}
+	sort.Strings(types)
+	var sb strings.Builder
+	sb.WriteString(strings.Join(names, ","))
+	for _, typ := range types {
+		fmt.Fprintf(&sb, ";%s%s", typ, strings.Join(byType[typ], ""))
+	}
+	fmt.Fprintf(&sb, ";err=%v", d.HasErrors())
 	return sb.String()
 }
 
@@ -128,6 +158,46 @@ func TestC03_SameConfiguration(t *testing.T) {
 				if jStruct != nStruct || jErr != nErr {
 					c.Set("failing_json", js)
 					c.Failf("content-differs", "encoding %d: Content differs.\n native (err=%v): %s\n json   (err=%v): %s", k, nErr, nStruct, jErr, jStruct)
+				}
+				// the same configuration processed in two steps (what gohcl's remain fields,
+				// hcldec.PartialDecode and dynblock do): a partial request for some of the
+				// names, then the rest asked of the remaining body - twice, it is a value
+				if !nErr {
+					full := exhaustiveSchemaOf(body)
+					var first, second ref.Schema
+					for _, a := range full.Attrs {
+						if rapid.Bool().Draw(t, "first_step_attr") {
+							first.Attrs = append(first.Attrs, a)
+						} else {
+							second.Attrs = append(second.Attrs, a)
+						}
+					}
+					for _, b := range full.Blocks {
+						if rapid.IntRange(0, 2).Draw(t, "first_step_block") == 0 {
+							first.Blocks = append(first.Blocks, b)
+						} else {
+							second.Blocks = append(second.Blocks, b)
+						}
+					}
+					twoStep := func(b hcl.Body) (string, string, string) {
+						c1, rem, d1 := b.PartialContent(toHCLSchema(first))
+						if rem == nil {
+							return flatContent(c1, d1), "no remainder", ""
+						}
+						c2, d2 := rem.Content(toHCLSchema(second))
+						c3, d3 := rem.Content(toHCLSchema(second))
+						return flatContent(c1, d1), flatContent(c2, d2), flatContent(c3, d3)
+					}
+					var n1, n2, n3, j1, j2, j3 string
+					c.Guard("two-step native", func() { n1, n2, n3 = twoStep(nf.Body) })
+					c.Guard("two-step json", func() { j1, j2, j3 = twoStep(jf.Body) })
+					if n1 != j1 || n2 != j2 || n3 != j3 || j2 != j3 {
+						c.Set("failing_json", js)
+						c.Failf("two-step-differs", "encoding %d, PartialContent(%+v) then twice Content(%+v) on the remainder:\n native: %s | %s | %s\n json:   %s | %s | %s", k, first, second, n1, n2, n3, j1, j2, j3)
+					}
+					if len(first.Attrs)+len(first.Blocks) > 0 && len(second.Blocks) > 0 {
+						c.Class("two_step_compared")
+					}
 				}
 				var jVal cty.Value
 				var jDiags hcl.Diagnostics
